@@ -45,6 +45,7 @@ CONSTANTS MaxBuild, MaxProbe,    \* rows per side
           NKeyVals,
           P,
           JoinTypes,             \* subset of 1..6: 1 inner 2 left 3 right 4 full 5 semi 6 anti
+          HashAll,               \* TRUE: every hash function; FALSE: NULL keys hash to partition 1 (they never match)
           MissingFile, SilentOuter,
           EmitMod
 
@@ -123,7 +124,7 @@ Decide == /\ pc = "fillR" /\ pos > Len(rsz)
                       THEN IF j # 1 /\ ~SilentOuter
                            THEN /\ out' = [k |-> "error", rows |-> <<>>] /\ pc' = "done" /\ path' = "spill" /\ UNCHANGED <<h, pos>>
                            ELSE /\ path' = "spill" /\ pc' = "build" /\ pos' = 1 /\ UNCHANGED out
-                                /\ h' \in [KeyDom -> 1..P]                        \* any hash function
+                                /\ h' \in {f \in [KeyDom -> 1..P] : HashAll \/ f[NULL] = 1}                        \* any hash function
                       ELSE /\ path' = "mem" /\ pc' = "done" /\ UNCHANGED <<h, pos>>
                            /\ out' = [k |-> "rows", rows |-> SetToSeq(JoinBagOf(j))]
           /\ UNCHANGED <<lsz, rsz, left, right, mem, st, file, hasfile, pfile, total, res>>
